@@ -204,7 +204,10 @@ static bool nparty_once(std::vector<std::pair<std::string, std::string> > &pendi
 	auto propfail = [&](const std::string &k, const std::string &w) { fails.push_back(std::make_pair(k, w)); };
 	std::vector<bool> fr(n); for (size_t i = 0; i < n; i++) fr[i] = gen().coin();
 	// a scripted silence costs one library time-out per missing message: shorter time-outs for such runs
-	ForkResult FR = fork_parties(n, t, seed, silence ? aiounicast::aio_timeout_short : aiounicast::aio_timeout_long, 240, [&](size_t i, aiounicast *aiou, CachinKursawePetzoldShoupRBC *rbc, std::ostream &res) {
+	// (private messages that never come: 5 s; broadcasts that never come: 30 s, so that the party that waited for a private message
+	// is not itself timed out by the others)
+	std::set<size_t> expected_silent; for (auto &d : devs) if (!d.second.drop.empty() || d.second.answer == 2 || d.second.opening == 2) expected_silent.insert(d.first);
+	ForkResult FR = fork_parties(n, t, seed, silence ? aiounicast::aio_timeout_middle : aiounicast::aio_timeout_long, 300, [&](size_t i, aiounicast *aiou, CachinKursawePetzoldShoupRBC *rbc, std::ostream &res) {
 		JareckiLysyanskayaEDCF edcf(n, t, G.p, G.q, G.g, G.h, mpz_sizeinbase(G.p, 2), mpz_sizeinbase(G.q, 2));
 		mpz_t a; mpz_init(a); std::ostringstream err;
 		script_ulong(fr[i] ? 1UL : 0UL);
@@ -234,7 +237,7 @@ static bool nparty_once(std::vector<std::pair<std::string, std::string> > &pendi
 		for (size_t j = 0; j < n; j++) { res << "sh" << j << "=" << hx(edcf.rvss->alpha_ij[j][i]) << "," << hx(edcf.rvss->hatalpha_ij[j][i]) << "\n";
 			res << "cm" << j << "="; for (size_t k = 0; k <= t; k++) res << (k ? "," : "") << hx(edcf.rvss->C_ik[j][k]); res << "\n"; }
 		{ std::string l = err.str(); if (l.size() > 1500 && !getenv("VERIF_DEBUG")) l = l.substr(l.size() - 1500); std::replace(l.begin(), l.end(), '\n', '~'); res << "log=" << l << "\n"; }
-	}, devs.empty() ? 0 : &devs, G.q);
+	}, devs.empty() ? 0 : &devs, G.q, silence ? aiounicast::aio_timeout_very_short : 0);
 	std::string fs; for (size_t i = 0; i < n; i++) fs += faulty[i] ? '1' : '0';
 	for (auto &d : devs) fs += " deviation of P" + std::to_string(d.first) + ": " + d.second.str();
 	std::string ctx = "n=" + std::to_string(n) + " t=" + std::to_string(t) + " faulty=" + fs + " seed=" + std::to_string(seed) + " p=" + hx(G.p) + " q=" + hx(G.q) + " g=" + hx(G.g) + " h=" + hx(G.h);
@@ -245,9 +248,9 @@ static bool nparty_once(std::vector<std::pair<std::string, std::string> > &pendi
 		// a dealer that ignores a complaint stays in Qual and its victim keeps the wrong share (finding nparty-unanswered-complaint):
 		// the consequences in such a scripted run are reported under that key
 		bool ignored = false; for (auto &d : devs) if (d.second.answer == 3) ignored = true;
-		if (ignored) for (auto &f : fails) if (f.first == "nparty-coins-differ" || f.first == "nparty-stale-share" || f.first == "nparty-coin-not-sum") f.first = "nparty-unanswered-complaint";
+		if (ignored) for (auto &f : fails) if (f.first == "nparty-coins-differ" || f.first == "nparty-stale-share" || f.first == "nparty-coin-not-sum" || (f.first == "nparty-honest-fails" && !FR.timing_trouble())) f.first = "nparty-unanswered-complaint";
 		if (fails.empty()) { for (auto &r : recs) { fputs(r.c_str(), stdout); } return true; }
-		if (FR.timing_trouble()) { fprintf(stderr, "c17: nparty inconclusive (time-out expired in the run; %s): %s\n", fails[0].first.c_str(), ctx.c_str()); pending = fails; return false; }
+		if (FR.timing_trouble(expected_silent)) { fprintf(stderr, "c17: nparty inconclusive (time-out expired in the run; %s): %s\n", fails[0].first.c_str(), ctx.c_str()); pending = fails; return false; }
 		for (auto &r : recs) fputs(r.c_str(), stdout);       // the views of a conclusive run are compared with the model in any case
 		for (auto &f : fails) verif::propfail(f.first, f.second);
 		return true; };
@@ -370,7 +373,8 @@ static void nparty(const Grp &G, size_t n, size_t t, const std::vector<bool> &fa
 		if (wall && attempt >= 1) { fprintf(stderr, "c17: nparty n=%zu: wall-clock limit hit twice, giving up (inconclusive)\n", n); return; } }
 	// a wrong coin value (not a failure to complete, not a disagreement) that repeats in every attempt is reported even though
 	// time-outs expired in all of them
-	for (auto &f : all.back()) {
+	bool scripted_silence = false; for (auto &d : devs) if (!d.second.drop.empty() || d.second.answer == 2 || d.second.opening == 2) scripted_silence = true;
+	if (!scripted_silence) for (auto &f : all.back()) {
 		bool every = (f.first == "nparty-coin-not-sum" || f.first == "nparty-stale-share" || f.first == "nparty-coin-out-of-range" || f.first == "nparty-unanswered-complaint");
 		for (auto &a : all) { bool has = false; for (auto &g : a) if (g.first == f.first) has = true; every = every && has; }
 		if (every) verif::propfail(f.first, f.second + " [repeated in 3 attempts, all with expired time-outs]");
